@@ -258,6 +258,19 @@ pub fn gen_block_size_text(rng: &mut Rng) -> Vec<u8> {
         6 => b"99999999999999999999999999".to_vec(),
         7 => format!("{}", 1u64 << rng.below(33)).into_bytes(), // power of two, not 3*2^n
         8 => format!("+{}", 3u64 << rng.below(31)).into_bytes(),
+        10 => {
+            // arithmetic wrap-around candidates: k*2^32 + valid size, k*2^64 + valid size (19..21 digits)
+            let v = 3u128 << rng.below(31);
+            let k = 1 + rng.below(9) as u128;
+            let w = if rng.chance(1, 2) { 1u128 << 64 } else { 1u128 << 32 };
+            format!("{}", k * w + v).into_bytes()
+        }
+        11 => {
+            // 18..22 digit numbers around 2^63 / 2^64 / 10^19 / 10^20
+            let base: u128 = *rng.pick(&[1u128 << 63, 1u128 << 64, 10u128.pow(19), 10u128.pow(20), 10u128.pow(18), u64::MAX as u128, 99_999_999_999_999_999_999u128]);
+            let d = rng.below(7) as u128;
+            format!("{}", base + d - 3.min(base)).into_bytes()
+        }
         9 => format!("{} ", 3u64 << rng.below(31)).into_bytes(),
         _ => format!("{}", 3u64 << gen_log(rng)).into_bytes(),
     }
@@ -302,8 +315,21 @@ pub fn gen_long_bh(rng: &mut Rng, cap: usize) -> Vec<u8> {
             (0..l).map(|i| ((i * 7 + 3) % 64) as u8).collect()
         }
         6 => {
-            let l = rng.urange(0, 200);
-            (0..l).map(|_| rng.below(4) as u8).collect()
+            if rng.chance(1, 3) {
+                // a very long run (the counters that track runs must not wrap): 250..600 symbols
+                let s = rng.below(64) as u8;
+                let l = rng.urange(250, 600);
+                let pre = rng.urange(0, 3);
+                let mut v: Vec<u8> = (0..pre).map(|i| (s + 1 + i as u8) % 64).collect();
+                v.extend(std::iter::repeat(s).take(l));
+                if rng.chance(1, 2) {
+                    v.push((s + 7) % 64);
+                }
+                v
+            } else {
+                let l = rng.urange(0, 200);
+                (0..l).map(|_| rng.below(4) as u8).collect()
+            }
         }
         _ => {
             let l = rng.urange(cap.saturating_sub(3), cap + 3);
